@@ -47,6 +47,7 @@ class Obj:
         raise Unsupported("attribute %s" % name)
 
 
+NOT_EXCEPTIONS = {"SystemExit", "KeyboardInterrupt", "GeneratorExit"}
 STR_METHODS = {"lower", "upper", "strip", "lstrip", "rstrip", "startswith", "endswith", "find", "rfind", "replace", "rindex", "partition",
                "rpartition", "isidentifier", "isupper", "islower", "zfill", "ljust", "rjust", "center",
                "isdigit", "isalpha", "isalnum", "isspace", "split", "rsplit", "join", "count", "index", "expandtabs",
@@ -293,9 +294,10 @@ class Evaluator:
         raise Unsupported("call form")
 
     # ------------------------------------------------------------------ statements
-    def run_function(self, funcdef, args, kwargs=None):
-        """Interpret a FunctionDef on concrete arguments; returns its value (or raises PyRaise/Unsupported)."""
-        env = {}
+    def run_function(self, funcdef, args, kwargs=None, env0=None):
+        """Interpret a FunctionDef on concrete arguments; returns its value (or raises PyRaise/Unsupported).  `env0`: names visible
+        in the body besides the parameters (e.g. `super` / `__class__` of a method)."""
+        env = dict(env0) if env0 else {}
         params = [a.arg for a in funcdef.args.posonlyargs + funcdef.args.args]
         defaults = funcdef.args.defaults
         for p, d in zip(params[len(params) - len(defaults):], defaults):
@@ -304,6 +306,9 @@ class Evaluator:
             env[p] = a
         for k, v in (kwargs or {}).items():
             env[k] = v
+        for a_, d in zip(funcdef.args.kwonlyargs, funcdef.args.kw_defaults):
+            if a_.arg not in env and d is not None:
+                env[a_.arg] = self.ev(d, {})
         missing = [p for p in params if p not in env]
         if missing:
             raise Unsupported("missing args %s" % missing)
@@ -436,6 +441,11 @@ class Evaluator:
                 else:
                     raise Unsupported("import of %s" % nm)
         elif isinstance(s, ast.Raise):
+            if s.exc is None:
+                cur = getattr(self, "_handling", None)
+                if cur:
+                    raise cur[-1]
+                raise PyRaise("RuntimeError", "No active exception to reraise")
             e = s.exc.func if isinstance(s.exc, ast.Call) else s.exc
             raise PyRaise(getattr(e, "id", getattr(e, "attr", "Exception")))
         elif isinstance(s, ast.Assert):
@@ -453,13 +463,45 @@ class Evaluator:
                         names = [getattr(e, "id", getattr(e, "attr", "?")) for e in h.type.elts]
                     else:
                         names = [getattr(h.type, "id", getattr(h.type, "attr", "?"))]
-                    if err.exc_type in names or "Exception" in names or "BaseException" in names:
-                        self.block(h.body, env)
+                    if err.exc_type in names or ("Exception" in names and err.exc_type not in NOT_EXCEPTIONS) or "BaseException" in names:
+                        if h.name:
+                            env[h.name] = err
+                        if not hasattr(self, "_handling"):
+                            self._handling = []
+                        self._handling.append(err)
+                        try:
+                            self.block(h.body, env)
+                        finally:
+                            self._handling.pop()
                         break
                 else:
                     raise
             else:
                 self.block(s.orelse, env)
+        elif isinstance(s, ast.Try):
+            inner = ast.Try(body=s.body, handlers=s.handlers, orelse=s.orelse, finalbody=[])
+            try:
+                if s.handlers:
+                    self.stmt(inner, env)
+                else:
+                    self.block(s.body, env)
+            finally:
+                self.block(s.finalbody, env)
+        elif isinstance(s, ast.With) and all(isinstance(i.context_expr, ast.expr) for i in s.items):
+            # context managers of the model: an object with close() (a file of the virtual file system); the body runs, then close()
+            opened = []
+            for i in s.items:
+                v = self.ev(i.context_expr, env)
+                if not (isinstance(v, Obj) and "close" in v.fields):
+                    raise Unsupported("with on %s" % type(v).__name__)
+                opened.append(v)
+                if i.optional_vars is not None:
+                    self.assign(i.optional_vars, v, env)
+            try:
+                self.block(s.body, env)
+            finally:
+                for v in opened:
+                    v.fields["close"]()
         else:
             raise Unsupported("statement %s" % type(s).__name__)
 
